@@ -275,6 +275,9 @@ func reuseCheckShape(reuse DenseTensor, s Shape) (err error) {
 
 	if axes := reuse.transposeAxes(); axes != nil {
 		ReturnInts(axes)
+		if d, ok := reuse.(*Dense); ok {
+			d.transposeWith = nil // the slice belongs to the pool now: keeping it would hand it back a second time later
+		}
 	}
 
 	if viewOf := reuse.parentTensor(); viewOf != nil {
